@@ -81,6 +81,14 @@ def handle (toks : List String) : String :=
         match decWs ws, decAe ae, entry.cps?, decSources files with
         | some ws, some ae, some entry, some srcs => ok (encOutcome true (compile ⟨ws, ae⟩ srcs entry))
         | _, _, _, _ => err "bad-arg"
+      | "loopok", [ws, ae, entry, files] =>
+        -- Python's verdict on `break` / `continue` in the generated module, as `Spec.loopOK` predicts it
+        match decWs ws, decAe ae, entry.cps?, decSources files with
+        | some ws, some ae, some entry, some srcs =>
+          match compile ⟨ws, ae⟩ srcs entry with
+          | .code lines => ok [V.ofBool (loopOK lines)]
+          | _ => ok [.atom "N"]
+        | _, _, _, _ => err "bad-arg"
       | "compileseq", [ws, ae, names, files] =>
         match decWs ws, decAe ae, names.list? >>= (·.mapM V.cps?), decSources files with
         | some ws, some ae, some names, some srcs =>
